@@ -1,6 +1,8 @@
 package checks
 
 import (
+	"strings"
+
 	"verif/internal/ev"
 	"verif/internal/imp"
 )
@@ -17,6 +19,7 @@ var c19Preambles = [][]string{
 	{"#include <a.h>", "int f(void);\nint g(void);"},
 	{"// #cgo CFLAGS: -O2", "#include <b.h>\n"},
 	{"/*\n#include <c.h>\n*/", "// trailing"},
+	{"#include <a.h>\nstatic const char table[] = {" + strings.Repeat("1,", 40000) + "};\nint after(void);"},
 }
 
 var c19Check = &impCheck{
@@ -51,7 +54,7 @@ var c19Check = &impCheck{
 func init() {
 	register(&Check{ID: "C19", Level: "model_checking", Run: func(r *ev.Recorder) {
 		r.Rule = "(1) explicit-state BFS over one real File: Qual(\"C\", s), Anon(\"C\"), ImportName(\"C\", x), ImportAlias(\"C\", C|c|.), the same for a package b/C whose real name is C and for fmt, one-line and multi-line CgoPreamble blocks, PackagePrefix - in every order up to the depth bound. " +
-			"(2) canonical histories: every reference sequence over {C, b/C, a/c, fmt, os, x/y, 9fans.net/go, B/b} (paths that sort before and after \"C\") x 9 preamble lists (0-2 blocks; one-line, one-line with trailing newline, multi-line, raw /* */ and // forms) x hints naming \"C\" (ImportName, ImportAlias C, c, ., _ ; double hints; hints after the references) x Anon x prefix {pkg, C}, within the deviation bound. " +
+			"(2) canonical histories: every reference sequence over {C, b/C, a/c, fmt, os, x/y, 9fans.net/go, B/b} (paths that sort before and after \"C\") x 10 preamble lists (0-2 blocks; one with an 80 KB line; one-line, one-line with trailing newline, multi-line, raw /* */ and // forms) x hints naming \"C\" (ImportName, ImportAlias C, c, ., _ ; double hints; hints after the references) x Anon x prefix {pkg, C}, within the deviation bound. " +
 			"Oracle on the parsed output: exactly one spec with path \"C\", without a name; every reference built with \"C\" is C.sym; with a preamble the spec is alone in its declaration, its doc comment consists of the preamble blocks' text in order, there is no blank line between doc and import, and all other specs come in an earlier declaration; without a preamble it has no doc; plus C04's exactness and C03's type check (FakeImportC). " +
 			"distinct_nontrivial = distinct outputs importing \"C\" together with a preamble or another import"
 		r.Assume = []string{"comment text is compared line-wise, trimmed (gofmt may re-indent block comments)", "histories beyond the depth / deviation bounds are outside the bound"}
